@@ -1383,6 +1383,8 @@ class SMPose(SMUserList):
                 return op(left.A, right)
             else:
                 return [op(x, right) for x in left.A]
+        else:
+            raise ValueError('bad operands')
 
 if __name__ == "__main__":
     from spatialmath import SE3
